@@ -187,6 +187,33 @@ def run(ctx):
     ctx.floor("SMC kernel targets", n_targets, 4)
     ctx.floor("kernel bindings in mutate", n_bind, 3)
 
+    # ---- the temperature handed to the kernel is the one the population was just resampled to (in the loop and in the final enlargement)
+    from .smcloop import fold_sample
+    smp = smc.methods["sample"]
+    n_mut = 0
+    for final in (False, True):
+        sf = fold_sample(repo, resumed=False, final=final)
+        ctx.count("functions_folded")
+        rs = {T.strip_raise(e.result): e for e in sf.events("method:resample")}
+        for e in sf.events(".mutate"):
+            if len(e.args) < 2:
+                continue
+            inl = sf.in_loop(e.node)
+            if final == inl:
+                continue  # the loop's call site is judged in the first fold, the enlargement's in the second
+            n_mut += 1
+            pop, b = T.strip_raise(e.args[0]), e.args[1]
+            src = rs.get(pop)
+            where = "loop" if inl else "final"
+            if src is None or len(src.args) < 2:
+                ctx.unknown("C05.temp", smp.ident, loc_of(smp, e.node), f"the population handed to mutate ({T.show(pop)[:100]}) is not the result of a resample(...) call of this function", disc=where)
+                continue
+            ctx.decide(src.args[1] == b, "C05.temp", smp.ident, loc_of(smp, e.node),
+                       f"[{where}] mutate(resample(population, b), b): the kernel's target is tempered at the temperature of the population it moves ({T.show(b)[:40]})",
+                       f"[{where}] the population was resampled to temperature {T.show(src.args[1])[:80]} but the kernel is handed temperature {T.show(b)[:80]}: "
+                       "its target is the tempered density of a different temperature than the one the particles are distributed at", disc=where)
+    ctx.floor("mutate call sites of the SMC driver", n_mut, 2)
+
     # the log|det dx/dz| term is the preconditioning transform's inverse log-Jacobian
     from ..report import reuse
     from . import c04
@@ -228,6 +255,8 @@ MUTANTS = [
     M("tempered target drops prior", _S, "log_p_T = self.log_likelihood + self.log_prior", "log_p_T = self.log_likelihood", ("C05.pt", "C05.id")),
     M("SMC target drops Jacobian", _B, ").flatten() + samples.array_to_namespace(log_abs_det_jacobian)\n\n        log_prob = update_at_indices(", ").flatten()\n\n        log_prob = update_at_indices(", "C05.id"),
     M("SMC target subtracts Jacobian", _B, ").flatten() + samples.array_to_namespace(log_abs_det_jacobian)\n\n        log_prob = update_at_indices(", ").flatten() - samples.array_to_namespace(log_abs_det_jacobian)\n\n        log_prob = update_at_indices(", "C05.id"),
+    M("final enlargement mutated at the pre-resample temperature", _B, "samples = self.mutate(final_samples, 1.0, n_steps=n_final_steps)", "samples = self.mutate(final_samples, samples.beta, n_steps=n_final_steps)", "C05.temp"),
+    M("loop mutates at the previous temperature", _B, "samples = self.mutate(samples, beta)", "samples = self.mutate(samples, self.history.beta[-2] if len(self.history.beta) > 1 else 0.0)", "C05.temp"),
     M("SMC target without NaN map", _B, "log_prob = update_at_indices(\n            log_prob, self.xp.isnan(log_prob), -self.xp.inf\n        )\n        return log_prob", "return log_prob", "C05.nan"),
     M("SMC NaN mapped to +inf", _B, "log_prob, self.xp.isnan(log_prob), -self.xp.inf", "log_prob, self.xp.isnan(log_prob), self.xp.inf", "C05.nan"),
     M("SMC target evaluates q at z", _B, "log_q = self.prior_flow.log_prob(samples.x)", "log_q = self.prior_flow.log_prob(z)", "C05.id", within="SMCSampler.log_prob"),
